@@ -38,11 +38,16 @@ func genC10Limits(t *rapid.T) *c10Case {
 	c.Opts.Replicas = rapid.IntRange(1, c.Opts.Members).Draw(t, "replicas")
 	c.Opts.Partitions = rapid.SampledFrom([]int{7, 13, 31}).Draw(t, "partitions")
 	c.ValLen = rapid.SampledFrom([]int{10, 40}).Draw(t, "vallen")
-	if rapid.Bool().Draw(t, "byKeys") {
+	entry := 29 + 8 + c.ValLen
+	switch rapid.SampledFrom([]string{"keys", "keys", "inuse", "inuse", "both"}).Draw(t, "limit") {
+	case "keys":
 		c.Opts.MaxKeys = rapid.SampledFrom([]int{1, 3, 5, 10, 20, 40, 60}).Draw(t, "maxKeys")
-	} else {
-		entry := 29 + 8 + c.ValLen
+	case "inuse":
 		c.Opts.MaxInuse = entry * rapid.SampledFrom([]int{3, 10, 30, 80}).Draw(t, "maxEntries")
+	default:
+		// both limits on one DMap; either may be the tighter one
+		c.Opts.MaxKeys = rapid.SampledFrom([]int{10, 40, 1000}).Draw(t, "maxKeysBoth")
+		c.Opts.MaxInuse = entry * rapid.SampledFrom([]int{10, 30, 2000}).Draw(t, "maxEntriesBoth")
 	}
 	c.Opts.LRUSamples = rapid.SampledFrom([]int{1, 2, 5, 10}).Draw(t, "lruSamples")
 	c.Puts = rapid.IntRange(50, 300).Draw(t, "puts")
